@@ -468,4 +468,33 @@ def r9_slot_arity_and_gate(facts):
                 c.bad(sinst, swhere, "slot %d is Some exactly when t[%s] is false" % (i, idx))
             else:
                 c.unk(sinst, swhere, "slot %d has an unrecognised form: %s" % (i, show(s)[:120]))
+        # early `return`s of the closure deliver slots as well: same arity, same gating
+        own_returns = [n for n in walk(facts.root(b)) if n.get("k") == "Return" and n.get("e") is not None]
+        for ri, rn in enumerate(own_returns):
+            rinst = "%s#return%d" % (inst, ri)
+            relems = vec_literal_elems(strip(rn["e"]))
+            if relems is None:
+                c.unk(rinst, loc(b, rn), "early return of a value that is not a slot vector literal: %s" % show(rn["e"])[:80])
+                continue
+            if len(relems) != len(slots):
+                c.bad(rinst, loc(b, rn), "an early return delivers %d slot(s) where the closure's result has %d" % (len(relems), len(slots)))
+                continue
+            for i, s_ in enumerate(relems):
+                form, idx, val = slot_form(s_, tvar)
+                if form == "gated" and idx == i:
+                    continue
+                if form == "some" and len(slots) == 1 and single_operand_attach_only_if_tracked(facts, parent):
+                    continue
+                if form == "none":
+                    c.bad(rinst, loc(b, rn), "on an early return slot %d is None whatever its flag: a tracked operand %d then receives no adjoint on that path, "
+                          "its consumer counter is not decremented and it (and everything below it) is left out of this and later passes" % (i, i))
+                elif form in ("gated", "inverted"):
+                    c.bad(rinst, loc(b, rn), "on an early return slot %d is gated on t[%s]%s" % (i, idx, " negated" if form == "inverted" else ""))
+                elif form == "some":
+                    c.bad(rinst, loc(b, rn), "on an early return slot %d is Some whatever its flag" % i)
+                else:
+                    c.unk(rinst, loc(b, rn), "slot %d of an early return has an unrecognised form: %s" % (i, show(s_)[:80]))
+                break
+            else:
+                c.ok(rinst, loc(b, rn), "the early return delivers the same slots under the same flags")
     return c
